@@ -119,3 +119,11 @@ Theorem face_report_recorded_decode p rest :
   sgr_wf p = true ->
   prod_decode (print (RFaceReport p) ++ rest) = (face_report_recorded p :: fst (prod_decode rest), snd (prod_decode rest)).
 Proof. intros Hwf. apply decode_single, single_facerep_lib, Hwf. Qed.
+
+(* the evaluation function of the correspondence file computes the same events as the specification *)
+Theorem fast_decode s : prod_decode_fast s = fst (prod_decode s).
+Proof.
+  unfold prod_decode_fast.
+  destruct (chunking [s] (length s + 3)) as (s' & H & _); [cbn [concat]; rewrite app_nil_r; apply Nat.le_refl|].
+  cbn [concat] in H. rewrite app_nil_r in H. rewrite H. reflexivity.
+Qed.
